@@ -44,6 +44,16 @@ def main():
             rec['issues_later'] = issues_of(tifa_analysis())
         except BaseException as e:
             rec['issues_later'] = 'raised ' + type(e).__name__
+    # third pass: the code handed over explicitly, on a report that never had a submission
+    from pedal.core.report import Report
+    for code, rec in zip(data['programs'], progs):
+        if 'raised' in rec:
+            continue
+        try:
+            r = tifa_analysis(code, report=Report())
+            rec['bare'] = {'success': bool(r.success), 'error': None if r.error is None else repr(r.error)[:160], 'issues': issues_of(r)}
+        except BaseException as e:
+            rec['bare'] = {'raised': type(e).__name__ + ': ' + str(e)[:160]}
     seqs = []
     for seq in data['sequences']:
         contextualize_report(seq['codes'][0])
